@@ -28,6 +28,7 @@ EXTENDS TypedCache, Json
 
 CONSTANTS Family,     \* "keymut" | "met" | "blklim" | "blkcac" | "arc" | "res"
           D,          \* maximal number of enumerated operations
+          Wide,       \* TRUE: the full configuration grids / scripts (thorough tier); FALSE: the reduced ones
           KT,         \* key types (keymut / pairs)
           Backs       \* backends (keymut / pairs): subset of {"none", "mem", "disk", "diskflat"}
 
@@ -97,7 +98,8 @@ ResOps ==
    [op |-> "chain", r |-> "r1", e |-> "e1", p |-> "p1"],
    [op |-> "fb", r |-> "r1", p |-> "p1"], [op |-> "fb", r |-> "r1", p |-> "p3"], [op |-> "fb", r |-> "r2", p |-> "p1"],
    [op |-> "fb", r |-> "rj", p |-> "p1"], [op |-> "fcfg", h |-> "abcd1234"], [op |-> "fcfg", h |-> "abc"]}
-ResCfgs == {[maxroots |-> m, urls |-> u] : m \in {100, 1}, u \in {0, 1}}
+ResCfgs == IF Wide THEN {[maxroots |-> m, urls |-> u] : m \in {100, 1}, u \in {0, 1}}
+           ELSE {[maxroots |-> 100, urls |-> 1], [maxroots |-> 100, urls |-> 0]}
 
 Cfgs == CASE Family = "keymut" -> {BackCfg(kt, b) : kt \in KT, b \in Backs}
           [] Family = "met"    -> {[k |-> "met"]}
@@ -172,6 +174,9 @@ WFull  == (Family = "blklim" /\ aux.bad) => ~Witness("RefusalJustified")
 \* ---- key pairs (cfg = [kt, back], aux = [a, b], hist unused) ---------------------------
 PairScripts(b) ==
   IF b = "none" THEN {<<>>}
+  ELSE IF b = "mem" /\ ~Wide THEN
+       {<<[op |-> "put", s |-> 1, n |-> 3], [op |-> "put", s |-> 2, n |-> 2], [op |-> "get", s |-> 1], [op |-> "get", s |-> 2],
+          [op |-> "remove", s |-> 1], [op |-> "get", s |-> 2], [op |-> "contains", s |-> 2]>>}
   ELSE {<<[op |-> "put", s |-> 1, n |-> 3], [op |-> "put", s |-> 2, n |-> 2], [op |-> "get", s |-> 1], [op |-> "get", s |-> 2],
           [op |-> "remove", s |-> 1], [op |-> "get", s |-> 2], [op |-> "contains", s |-> 2]>>,
         <<[op |-> "put", s |-> 1, n |-> 3], [op |-> "get", s |-> 2], [op |-> "contains", s |-> 2], [op |-> "remove", s |-> 2],
